@@ -65,7 +65,13 @@ func (eng *Engine) verifyAgainstIface(fn *ssa.Function, ifc *FuncContract, own *
 	return eng.verifyFunctionTagged(fn, &eff, "@iface", func(vc *VC) {
 		vc.autoDrop = drop
 		vc.paramAlias = map[string]ssa.Value{}
-		if len(fn.Params) > 0 {
+		if strings.HasPrefix(ifc.Key, "functype:") {
+			for i, n := range ifc.ParamNames {
+				if i < len(fn.Params) {
+					vc.paramAlias[n] = fn.Params[i]
+				}
+			}
+		} else if len(fn.Params) > 0 {
 			vc.paramAlias[ifc.RecvName] = fn.Params[0]
 			for i, n := range ifc.ParamNames {
 				if i+1 < len(fn.Params) {
@@ -144,8 +150,16 @@ func (ex *exec) run() {
 		vc.assume("true", vc.sorts.typeInv(p.Type(), name, "nextRef0"))
 		vc.vals[p] = Val{T: name, S: sort, Typ: p.Type()}
 	}
+	// captured variables of a closure: symbolic (the closure may be called in any environment of that shape)
 	for _, fv := range fn.FreeVars {
-		ex.bail("closure with free variable %s", fv.Name())
+		name := "fv_" + sanitize(fv.Name())
+		sort := vc.sorts.sortOf(fv.Type())
+		vc.declConst(name, sort)
+		vc.assume("true", vc.sorts.typeInv(fv.Type(), name, "nextRef0"))
+		if _, isPtr := fv.Type().Underlying().(*types.Pointer); isPtr {
+			vc.assume("true", "(not (= "+name+" 0))")
+		}
+		vc.vals[fv] = Val{T: name, S: sort, Typ: fv.Type()}
 	}
 	vc.entry = st.clone()
 	env := ex.newEnv(st, st)
@@ -167,6 +181,15 @@ func (ex *exec) run() {
 			ls, err := ex.evalLocSet(env, vc.contract.Reads)
 			if err != nil {
 				ex.bail("reads clause: %v", err)
+			}
+			// the closure's own environment cells (captured variables) may be read
+			for _, fv := range fn.FreeVars {
+				if pt, ok := fv.Type().Underlying().(*types.Pointer); ok {
+					if _, isStruct := pt.Elem().Underlying().(*types.Struct); !isStruct {
+						h := vc.derefHeap(pt.Elem())
+						ls.fieldRefs[h.name] = append(ls.fieldRefs[h.name], vc.vals[fv].T)
+					}
+				}
 			}
 			ex.readSet = ls
 		}
@@ -1490,11 +1513,45 @@ func (ex *exec) chanOp(st *State, ins ssa.Instruction) {
 	ex.bail("channel operation")
 }
 
+// Range/Next over maps and strings: an over-approximation that is sound for safety, frame and read obligations:
+// each Next yields an arbitrary key that is present in the map (the order, and that every key is visited exactly
+// once, are not modelled; functional properties of map iterations are outside the subset).
 func (ex *exec) rangeInit(st *State, x *ssa.Range) {
-	ex.bail("range over %s", x.X.Type())
+	v := ex.val(x.X)
+	ex.vc.vals[x] = Val{T: v.T, S: v.S, Typ: x.X.Type()}
 }
 func (ex *exec) rangeNext(st *State, x *ssa.Next) {
-	ex.bail("range next")
+	vc := ex.vc
+	rng, ok := x.Iter.(*ssa.Range)
+	if !ok {
+		ex.bail("next on unknown iterator")
+	}
+	it := ex.val(rng)
+	okc := vc.freshConst("next_ok", SBool)
+	boolT := types.Typ[types.Bool]
+	switch t := rng.X.Type().Underlying().(type) {
+	case *types.Map:
+		has, val := vc.mapHeaps(t)
+		if ex.readSet != nil {
+			for _, h := range []*heapInfo{has, val} {
+				vc.oblige("reads["+strings.TrimPrefix(h.name, "H")+":range]", "frame", ex.cur, ex.readSet.covers(h.name, locField, it.T), "map iteration outside the declared reads footprint", posStr(vc.eng.fset, x.Pos()))
+			}
+		}
+		ks := vc.sorts.sortOf(t.Key())
+		k := vc.freshConst("next_k", ks)
+		vc.assume(ex.cur, vc.sorts.typeInv(t.Key(), k, st.nextRef))
+		present := "(select (select " + vc.heapGet(st, has) + " " + it.T + ") " + k + ")"
+		vc.assume(ex.cur, sImp(okc, sAnd("(not (= "+it.T+" 0))", present)))
+		v := vc.define("next_v", vc.sorts.sortOf(t.Elem()), "(select (select "+vc.heapGet(st, val)+" "+it.T+") "+k+")")
+		vc.tuples[x] = []Val{{T: okc, S: SBool, Typ: boolT}, {T: k, S: ks, Typ: t.Key()}, {T: v, S: vc.sorts.sortOf(t.Elem()), Typ: t.Elem()}}
+	case *types.Basic:
+		idx := vc.freshConst("next_i", SInt)
+		r := vc.freshConst("next_r", SInt)
+		vc.assume(ex.cur, sImp(okc, "(and (<= 0 "+idx+") (< "+idx+" (gs.len "+it.T+")) (<= 0 "+r+") (<= "+r+" 1114111))"))
+		vc.tuples[x] = []Val{{T: okc, S: SBool, Typ: boolT}, {T: idx, S: SInt, Typ: types.Typ[types.Int]}, {T: r, S: SInt, Typ: types.Typ[types.Rune]}}
+	default:
+		ex.bail("range over %s", rng.X.Type())
+	}
 }
 
 // ---------------------------------------------------------------------------
